@@ -578,6 +578,53 @@ def analyze(events, recs, fam, bufsize=0):
 
 # ------------------------------------------------------------------------------- runner
 
+def prefix_probe(rep):
+    """the constructor's topic-length assert against the longest topic a dump really builds (oracle only); returns
+    (cases run, failures)"""
+    n, bad = 0, 0
+    ok, msg = build_harness("dev")
+    if not ok:
+        rep.violation("proof", {"what": "harness does not build against /repo", "log": msg}, no_input=True)
+        return 0, 0
+    # the constructor's topic-length assert against the longest topic a dump really builds: for every family the longest
+    # admissible prefix (and one byte less) must be accepted and its initial dump must publish every leaf on
+    # `<prefix>/settings<path>`; one byte more must be refused by `MqttClient::new` (independent reading of the limit:
+    # len(prefix) + len("/settings") + longest leaf path <= 128)
+    plines, want = [], {}
+    for fam in (0, 1, 2, 3):
+        F = Fam(fam)
+        longest = max(len(p_.encode()) for p_, _ in F.leaves)
+        kmax = 128 - len("/settings") - longest - len(PREFIX)
+        for k in (0, kmax - 1, kmax, kmax + 1):
+            cid = f"n{fam}x{k}"
+            plines.append(f"mq {cid} {fam} 2048 pfx{k} un8 adv2000 un80")
+            want[cid] = (fam, k, k <= kmax)
+    _rc, pout, _err = run_lines(harness_bin("dev"), plines)
+    base = {}
+    for cid, (fam, k, admitted) in want.items():
+        out = pout.get(cid) or ""
+        n += 1
+        pubs = [t for t in re.findall(r"PUB\(t=([0-9.e]+),", out)]
+        pre = cp(PREFIX + "p" * k + "/settings")
+        dumped = sorted(t[len(pre):] for t in pubs if t.startswith(pre + "."))
+        why = None
+        if admitted:
+            if out.startswith("panic"):
+                why = f"family {fam}: a prefix of {len(PREFIX) + k} bytes satisfies the documented limit but the client panicked: {out[:160]}"
+            elif k == 0:
+                base[fam] = dumped
+            elif len(dumped) != len(base.get(fam, dumped)):
+                why = (f"family {fam}, prefix of {len(PREFIX) + k} bytes: the initial dump published {len(dumped)} leaves, "
+                       f"{len(base[fam])} with the short prefix")
+        elif not (out.startswith("panic") and "assertion_failed" in out):
+            why = (f"family {fam}: with a prefix of {len(PREFIX) + k} bytes the longest leaf topic has 129 bytes, more than "
+                   f"MAX_TOPIC_LENGTH, but MqttClient::new accepted it: {out[:120]}")
+        if why:
+            bad += 1
+            rep.violation("oracle", {"case": f"mq {cid} {fam} 2048 pfx{k} un8 adv2000 un80", "why": why})
+    return n, bad
+
+
 FLAVORS = {"C07": ["requests", "requests", "limits", "faults"], "C10": ["dump", "dump", "faults", "requests"],
            "C13": ["faults", "faults", "requests"], "C14": ["limits", "requests", "faults", "dump"]}
 
@@ -664,42 +711,8 @@ def run_mqtt(rep, prop_id, rng, tier):
         rep.violation("proof", {"what": "Lean driver unavailable", "log": dmsg}, no_input=True)
     n_pfx = 0
     if prop_id == "C10":
-        # the constructor's topic-length assert against the longest topic a dump really builds: for every family the longest
-        # admissible prefix (and one byte less) must be accepted and its initial dump must publish every leaf on
-        # `<prefix>/settings<path>`; one byte more must be refused by `MqttClient::new` (independent reading of the limit:
-        # len(prefix) + len("/settings") + longest leaf path <= 128)
-        plines, want = [], {}
-        for fam in (0, 1, 2, 3):
-            F = Fam(fam)
-            longest = max(len(p_.encode()) for p_, _ in F.leaves)
-            kmax = 128 - len("/settings") - longest - len(PREFIX)
-            for k in (0, kmax - 1, kmax, kmax + 1):
-                cid = f"n{fam}x{k}"
-                plines.append(f"mq {cid} {fam} 2048 pfx{k} un8 adv2000 un80")
-                want[cid] = (fam, k, k <= kmax)
-        _rc, pout, _err = run_lines(harness_bin("dev"), plines)
-        base = {}
-        for cid, (fam, k, admitted) in want.items():
-            out = pout.get(cid) or ""
-            n_pfx += 1
-            pubs = [t for t in re.findall(r"PUB\(t=([0-9.e]+),", out)]
-            pre = cp(PREFIX + "p" * k + "/settings")
-            dumped = sorted(t[len(pre):] for t in pubs if t.startswith(pre + "."))
-            why = None
-            if admitted:
-                if out.startswith("panic"):
-                    why = f"family {fam}: a prefix of {len(PREFIX) + k} bytes satisfies the documented limit but the client panicked: {out[:160]}"
-                elif k == 0:
-                    base[fam] = dumped
-                elif len(dumped) != len(base.get(fam, dumped)):
-                    why = (f"family {fam}, prefix of {len(PREFIX) + k} bytes: the initial dump published {len(dumped)} leaves, "
-                           f"{len(base[fam])} with the short prefix")
-            elif not (out.startswith("panic") and "assertion_failed" in out):
-                why = (f"family {fam}: with a prefix of {len(PREFIX) + k} bytes the longest leaf topic has 129 bytes, more than "
-                       f"MAX_TOPIC_LENGTH, but MqttClient::new accepted it: {out[:120]}")
-            if why:
-                n_or_fail += 1
-                rep.violation("oracle", {"case": f"mq {cid} {fam} 2048 pfx{k} un8 adv2000 un80", "why": why})
+        n_pfx, bad_ = prefix_probe(rep)
+        n_or_fail += bad_
     n_updates = sum(len([x for x in p[1] if x["k"] == "U"]) for p in parsed.values())
     rep.coverage = {
         "obligations": pl["obligations"],
